@@ -171,12 +171,16 @@ def add_query_argument(url, name, value=None, quote=True):
 
 
 def unsplit_netloc(username, password, hostname, port):
-    if username and password:
-        auth = username + ":" + password
+    if password:
+        auth = (username or "") + ":" + password
     elif username:
         auth = username
     else:
         auth = None
+
+    # NOTE: the parser strips the brackets of an IPv6 literal
+    if hostname and ":" in hostname:
+        hostname = "[" + hostname + "]"
 
     if auth:
         hostname = auth + "@" + hostname
